@@ -299,6 +299,14 @@ def _check(pid, P, tier, seed, bdir, ev):
                         x.verdict = False
                         x.message = 'calls %s, a function that has no contract (it did not exist when the contracts were written): %s' % (
                             ', '.join(VR.short(nf['key']) for nf in used[:3]), x.message)
+        # type lock: the attributes of a type definition (derives, serde / zeroize / getter attributes) are dropped or replaced by their documented
+        # expansion (E1/E2), so a CHANGED definition is not seen by the verifier.  It concerns the codec / persistence / zeroize properties always,
+        # and any other property whose serving functions mention the type.
+        changed_types = []
+        if tlock and tlock.get('types'):
+            for tk, th in meta.get('types', {}).items():
+                if tk in tlock['types'] and tlock['types'][tk] != th:
+                    changed_types.append(tk)
         # which functions serve this property
         tags = lemma_tags(cfg)
         pids = set([pid] + list(P.get('include', [])))   # a property may rest on the functions/lemmas of others (e.g. C01 on key generation)
@@ -346,6 +354,11 @@ def _check(pid, P, tier, seed, bdir, ev):
                     work.append(g)
                     added += 1
         cov.setdefault('callee_closure', {})[uname] = added
+        for tk in changed_types:
+            tname = tk.split(' :: ')[-1].split('::')[-1]
+            if pid in ('C12', 'C13', 'C20') or any(re.search(r'\b%s\b' % re.escape(tname), fn_src(f)) for f in serving.values()):
+                undecided.append('the definition of type %s changed (attributes / fields: the extraction replaces derives and drops serde, zeroize and getter '
+                                 'attributes, so the verifier does not see this change)' % tk)
         lemma_serving = {nm: t for nm, t in tags.items() if (pids & set(t['serves'])) or 'ALL' in t['serves']}
         # per-function accounting
         for key, f in sorted(serving.items()):
@@ -741,7 +754,11 @@ def concrete_fallback(pid, seed, ev, undecided):
     res = None
     try:
         import rtcheck
-        res = rtcheck.search(pid, 'undecided', seed)
+        # the scenarios of the property itself, then those of the properties it rests on (`include`: e.g. C02 rests on the nonce functions of C15)
+        for q in [pid] + list((PR.PROPS.get(pid) or {}).get('include', [])):
+            res = rtcheck.search(q, 'undecided', seed)
+            if res and res.get('found'):
+                break
     except Exception as e:
         cov['rtcheck_error'] = str(e)
     if res is not None:
